@@ -222,6 +222,13 @@ def run(ctx):
                 want = rc.encode(d, "ab")
                 if st != "ok" or bytes(got) != want:
                     res.violation("type-code-width", f"DataTypes.get_type({code:#x}) = {t!r} encodes 'ab' to {got!r}, expected {want!r}", None)
+        # codes of the types with special constructors (CIP Vol 1 C-6.1)
+        for name, code in (("DATE_AND_TIME", 0xCF), ("STRINGN", 0xD9), ("STRINGI", 0xDE), ("PADDED_EPATH", 0xDC), ("PACKED_EPATH", 0xDC), ("EPATH", 0xDC)):
+            res.ev()
+            res.seen("code", name)
+            cls = getattr(p, name, None)
+            if cls is None or getattr(cls, "code", None) != code:
+                res.violation("type-code", f"{name}.code = {getattr(cls, 'code', None)!r}, CIP says {code:#x}", None)
         # n_bytes / IPAddress / Revision
         for k in (1, 2, 4, 6, 8, 33):
             c = tg.nbytes_case(p, k)
